@@ -116,11 +116,28 @@ Proof.
   destruct K; cbn [frag_args]; rewrite <- IH; reflexivity.
 Qed.
 (* a definition whose value is a function (the result of a call, a function name): the name joins the functions *)
+Definition cdef_next (fl : list (N * kind)) (k : nat) (sc : list N) (s : Resolved.stmt) (ss : list Resolved.stmt) :=
+  match s with
+  | SDefinition _ x _ _ v _ =>
+      match frag_fexpr pv sv bound ((x, KP) :: fl) k sc v with
+      | Some K => if fresh_id pv sv bound fl sc x then frag_stmts pv sv bound ((x, K) :: fl) k sc ss else None
+      | None => None
+      end
+  | _ => None
+  end.
+
 Lemma frag_stmts_plain fl k sc s ss :
   is_fundef s = false ->
   frag_stmts pv sv bound fl (S k) sc (s :: ss) =
-  match frag_stmt pv sv bound fl k sc s with Some sc' => frag_stmts pv sv bound fl k sc' ss | None => None end.
+  match frag_stmt pv sv bound fl k sc s with Some sc' => frag_stmts pv sv bound fl k sc' ss | None => cdef_next fl k sc s ss end.
 Proof. destruct s; try reflexivity. destruct value; try reflexivity. discriminate. Qed.
+Lemma cdef_next_inv fl k sc s ss r : cdef_next fl k sc s ss = Some r ->
+  exists nm x kd t v sp K, s = SDefinition nm x kd t v sp /\ frag_fexpr pv sv bound ((x, KP) :: fl) k sc v = Some K /\
+                           fresh_id pv sv bound fl sc x = true /\ frag_stmts pv sv bound ((x, K) :: fl) k sc ss = Some r.
+Proof.
+  unfold cdef_next. destruct s; try discriminate. destruct (frag_fexpr pv sv bound ((var, KP) :: fl) k sc value) as [K|] eqn:Hf; [|discriminate].
+  destruct (fresh_id pv sv bound fl sc var) eqn:Hfr; [|discriminate]. intros H. do 7 eexists. eauto.
+Qed.
 Lemma frag_stmts_nil fl k sc : frag_stmts pv sv bound fl (S k) sc [] = Some (sc, fl).
 Proof. reflexivity. Qed.
 Lemma frag_stmt_block fl k sc ss sp :
@@ -174,9 +191,12 @@ Proof.
       match type of H with (if ?c then _ else _) = _ => destruct c eqn:Hc; [|discriminate H] end.
       destruct (IH _ _ _ _ _ H) as (sc1 & fl1 & k' & A & B). exists sc1, fl1, k'. split; [|exact B].
       rewrite frag_stmts_fun, Hc. exact A.
-    + rewrite (frag_stmts_plain _ _ _ _ _ Hf) in H. destruct (frag_stmt pv sv bound fl k sc s) as [sc0|] eqn:Hs; [|discriminate H].
-      destruct (IH _ _ _ _ _ H) as (sc1 & fl1 & k' & A & B). exists sc1, fl1, k'. split; [|exact B].
-      rewrite (frag_stmts_plain _ _ _ _ _ Hf), Hs. exact A.
+    + rewrite (frag_stmts_plain _ _ _ _ _ Hf) in H. destruct (frag_stmt pv sv bound fl k sc s) as [sc0|] eqn:Hs.
+      * destruct (IH _ _ _ _ _ H) as (sc1 & fl1 & k' & A & B). exists sc1, fl1, k'. split; [|exact B].
+        rewrite (frag_stmts_plain _ _ _ _ _ Hf), Hs. exact A.
+      * destruct (cdef_next_inv _ _ _ _ _ _ H) as (nm & x & kd & t & v & sp & K & -> & Hfe & Hfr & Hrest).
+        destruct (IH _ _ _ _ _ Hrest) as (sc1 & fl1 & k' & A & B). exists sc1, fl1, k'. split; [|exact B].
+        rewrite (frag_stmts_plain _ _ _ _ _ Hf), Hs. unfold cdef_next. rewrite Hfe, Hfr. exact A.
 Qed.
 
 Lemma frag_stmts_flincl : forall ss k fl sc sc' flr,
@@ -188,7 +208,9 @@ Proof.
     + destruct s; try discriminate Hf. destruct value; try discriminate Hf. rewrite frag_stmts_fun in H.
       match type of H with (if ?c then _ else _) = _ => destruct c eqn:Hc; [|discriminate H] end.
       apply IH in H. intros x Hx. apply H. right. exact Hx.
-    + rewrite (frag_stmts_plain _ _ _ _ _ Hf) in H. destruct (frag_stmt pv sv bound fl k sc s) as [sc0|] eqn:Hs; [eapply IH; exact H | discriminate H].
+    + rewrite (frag_stmts_plain _ _ _ _ _ Hf) in H. destruct (frag_stmt pv sv bound fl k sc s) as [sc0|] eqn:Hs; [eapply IH; exact H|].
+      destruct (cdef_next_inv _ _ _ _ _ _ H) as (nm & x & kd & t & v & sp & K & -> & Hfe & Hfr & Hrest).
+      apply IH in Hrest. intros y Hy. apply Hrest. right. exact Hy.
 Qed.
 
 Lemma frag_stmts_fnames : forall ss k fl sc sc' flr,
@@ -200,7 +222,9 @@ Proof.
     + destruct s; try discriminate Hf. destruct value; try discriminate Hf. rewrite frag_stmts_fun in H.
       match type of H with (if ?c then _ else _) = _ => destruct c eqn:Hc; [|discriminate H] end.
       apply IH in H. intros x Hx. apply H. right. exact Hx.
-    + rewrite (frag_stmts_plain _ _ _ _ _ Hf) in H. destruct (frag_stmt pv sv bound fl k sc s) as [sc0|] eqn:Hs; [eapply IH; exact H | discriminate H].
+    + rewrite (frag_stmts_plain _ _ _ _ _ Hf) in H. destruct (frag_stmt pv sv bound fl k sc s) as [sc0|] eqn:Hs; [eapply IH; exact H|].
+      destruct (cdef_next_inv _ _ _ _ _ _ H) as (nm & x & kd & t & v & sp & K & -> & Hfe & Hfr & Hrest).
+      apply IH in Hrest. intros y Hy. apply Hrest. right. exact Hy.
 Qed.
 
 End Eq.
@@ -616,10 +640,22 @@ Proof.
       destruct (IHss k _ ctx c1 ys c' sc scr l1 Hys Hf) as (b2 & l2 & Hs2).
       eexists _, _. eapply cshape_app; [apply cshape_fun_gen; exact Hsb | exact Hs2].
     + rewrite (frag_stmts_plain _ _ _ _ _ _ _ _ Hfd) in Hf.
-      destruct (frag_stmt pv sv bound fl k sc s) as [sc1|] eqn:Hs; [|discriminate Hf].
-      destruct (IH fl k s ctx c y c1 sc sc1 l Hy Hs) as (b1 & l1 & Hs1).
-      destruct (IHss k fl ctx c1 ys c' sc1 scr l1 Hys Hf) as (b2 & l2 & Hs2).
-      eexists _, _. eapply cshape_app; eassumption.
+      destruct (frag_stmt pv sv bound fl k sc s) as [sc1|] eqn:Hs.
+      * destruct (IH fl k s ctx c y c1 sc sc1 l Hy Hs) as (b1 & l1 & Hs1).
+        destruct (IHss k fl ctx c1 ys c' sc1 scr l1 Hys Hf) as (b2 & l2 & Hs2).
+        eexists _, _. eapply cshape_app; eassumption.
+      * (* x :: <function value> *)
+        destruct (cdef_next_inv _ _ _ _ _ _ _ _ _ Hf) as (nm & x & kd & t & v & sp & K & -> & Hfe & Hfr & Hrest).
+        assert (Hnf : is_function v = false) by (destruct v; try reflexivity; discriminate Hfd).
+        destruct g as [|[|g2]]; [cbn in Hy; discriminate Hy | cbn in Hy; discriminate Hy |]. cbn [statement] in Hy.
+        rewrite (definition_nonfun g2 x v ctx Hnf) in Hy. mon Hy. destruct a as [code_v rv]. cbn [fst snd] in *.
+        destruct (IHX _ g2 eq_refl k v K ctx c code_v rv c1 sc l Hm Hfe) as (b1 & l1 & Hs1 & ? & ?).
+        destruct (IHss k _ ctx c1 ys c' sc scr l1 Hys Hrest) as (b2 & l2 & Hs2).
+        pose proof Hs1 as (_ & ? & _).
+        eexists _, _. eapply cshape_app; [|exact Hs2].
+        eapply cshape_cons; [apply (cshape_plain u l (IDefine x) c c); [lia | reflexivity | reflexivity | apply used_plain]|].
+        eapply cshape_app; [exact Hs1|].
+        apply (cshape_plain u l1 (IAssign x rv) c1 c1); [lia | reflexivity | reflexivity | apply used_plain].
 Qed.
 
 (* the body of a function: its last statement, if an expression, is returned *)
